@@ -457,11 +457,33 @@ def path_conditions(fi: FuncInfo, node: ast.AST) -> list[tuple[ast.AST, bool]]:
     from ..flow import _terminates
     out: list[tuple[ast.AST, bool]] = []
 
+    def lookup_test(st: ast.Try) -> Optional[ast.AST]:
+        """`try: <one statement reading D[K]> except KeyError: ...` asks whether K is in D: the membership test it stands for"""
+        if len(st.body) != 1 or st.finalbody:
+            return None
+        caught = [norm_text(h.type) if h.type is not None else '' for h in st.handlers]
+        if not caught or not all(c.rsplit('.', 1)[-1] in ('KeyError', 'LookupError') for c in caught):
+            return None
+        subs = [n for n in ast.walk(st.body[0]) if isinstance(n, ast.Subscript) and isinstance(n.ctx, ast.Load)
+                and isinstance(n.slice, (ast.Constant, ast.Name, ast.Attribute)) and not isinstance(getattr(n.slice, 'value', None), slice)]
+        calls = [n for n in ast.walk(st.body[0]) if isinstance(n, ast.Call)]
+        if len(subs) != 1 or calls:
+            return None
+        key, mapping = subs[0].slice, subs[0].value
+        return ast.fix_missing_locations(ast.copy_location(ast.Compare(left=key, ops=[ast.In()], comparators=[mapping]), st))
+
     def rec(stmts) -> bool:
         prior: list[tuple[ast.AST, bool]] = []
         for st in stmts:
             if any(sub is node for sub in ast.walk(st)):
                 out.extend(prior)
+                if isinstance(st, ast.Try):
+                    m_ = lookup_test(st)
+                    if m_ is not None:
+                        if any(sub is node for b in st.body + st.orelse for sub in ast.walk(b)):
+                            out.append((m_, True))
+                        elif any(sub is node for h in st.handlers for b in h.body for sub in ast.walk(b)):
+                            out.append((m_, False))
                 if isinstance(st, ast.If):
                     if any(sub is node for b in st.body for sub in ast.walk(b)):
                         out.append((st.test, True))
@@ -486,6 +508,13 @@ def path_conditions(fi: FuncInfo, node: ast.AST) -> list[tuple[ast.AST, bool]]:
                     prior.append((st.test, False))
                 elif st.orelse and _terminates(st.orelse):
                     prior.append((st.test, True))
+            elif isinstance(st, ast.Try) and lookup_test(st) is not None:
+                found_leaves = _terminates(st.body + st.orelse) if st.orelse else _terminates(st.body)
+                missing_leaves = all(_terminates(h.body) for h in st.handlers)
+                if found_leaves and not missing_leaves:
+                    prior.append((lookup_test(st), False))
+                elif missing_leaves and not found_leaves:
+                    prior.append((lookup_test(st), True))
             elif isinstance(st, ast.While) and not st.orelse:
                 # a while loop left without `break` leaves its test false
                 breaks = [n for n in walk_no_nested(st) if isinstance(n, ast.Break)]
@@ -1299,6 +1328,8 @@ def fold_function(fi: FuncInfo, inputs: dict[str, object], max_steps: int = 200)
     str.lower / upper / strip / startswith / endswith, len().  Anything else raises Undecided naming it: no guessing."""
     env: dict[str, object] = {}
     steps = [0]
+    warned: list[str] = []
+    fold_function.last_warnings = warned
 
     def ev(e: ast.AST):
         steps[0] += 1
@@ -1358,6 +1389,11 @@ def fold_function(fi: FuncInfo, inputs: dict[str, object], max_steps: int = 200)
         if isinstance(e, ast.Call) and not e.keywords:
             if isinstance(e.func, ast.Name) and e.func.id == 'len' and len(e.args) == 1:
                 return len(ev(e.args[0]))
+            if isinstance(e.func, ast.Name) and e.func.id in ('int', 'float', 'str', 'bool') and len(e.args) == 1:
+                try:
+                    return {'int': int, 'float': float, 'str': str, 'bool': bool}[e.func.id](ev(e.args[0]))
+                except (TypeError, ValueError):
+                    return _Raised('ValueError')
             if isinstance(e.func, ast.Name) and e.func.id in ('frozenset', 'set', 'tuple', 'list', 'dict') and len(e.args) == 1:
                 return {'frozenset': frozenset, 'set': frozenset, 'tuple': tuple, 'list': list, 'dict': dict}[e.func.id](ev(e.args[0]))
             if isinstance(e.func, ast.Attribute):
@@ -1400,6 +1436,25 @@ def fold_function(fi: FuncInfo, inputs: dict[str, object], max_steps: int = 200)
                 raise _Exit('raise', (dotted(exc) or '?').rsplit('.', 1)[-1] if exc is not None else '?')
             elif isinstance(st, ast.Pass):
                 continue
+            elif isinstance(st, ast.Expr) and isinstance(st.value, ast.Call) and (dotted(st.value.func) or '') in ('warnings.warn', 'warn'):
+                warned.append(norm_text(st.value.args[1]).rsplit('.', 1)[-1] if len(st.value.args) > 1 else 'UserWarning')
+            elif isinstance(st, ast.Try) and not st.finalbody:
+                try:
+                    run(st.body)
+                except _Exit as x:
+                    if x.kind != 'raise':
+                        raise
+                    for h in st.handlers:
+                        names = [norm_text(t).rsplit('.', 1)[-1] for t in (h.type.elts if isinstance(h.type, ast.Tuple) else [h.type])] if h.type is not None else [x.value]
+                        if x.value in names or 'Exception' in names or ('LookupError' in names and x.value in ('KeyError', 'IndexError')):
+                            if h.name:
+                                raise Undecided('exception object used')
+                            run(h.body)
+                            break
+                    else:
+                        raise
+                else:
+                    run(st.orelse)
             else:
                 raise Undecided(norm_text(st)[:60])
     from ..inline import _body_wo_doc
